@@ -201,9 +201,13 @@ func (w *World) ruleFieldDispatchers(r *Report, rule string) {
 func (w *World) ruleConvertedSinks(r *Report, rule string) {
 	conv := map[string]bool{"convertTo": true}
 	n := 0
+	// the examined code: the Decoder's methods and their private helpers
+	// (unexported package functions called from examined functions only), each
+	// with the Decoder methods it works for
+	owners := w.decoderLayer()
+	readers := map[*ssa.Function]bool{}
 	for _, fn := range w.SrcFuncs() {
-		recv := fn.Signature.Recv()
-		if recv == nil || !namedIs(recv.Type(), hessianPath, "Decoder") {
+		if len(owners[fn]) == 0 {
 			continue
 		}
 		cnt := 0
@@ -238,6 +242,9 @@ func (w *World) ruleConvertedSinks(r *Report, rule string) {
 			}
 			n++
 			cnt++
+			for o := range owners[fn] {
+				readers[o] = true
+			}
 			ok := true
 			var facts []string
 			for _, v := range vals {
@@ -261,7 +268,58 @@ func (w *World) ruleConvertedSinks(r *Report, rule string) {
 			r.add(rule, fmt.Sprintf("%s · %s", fnName(fn), cs.key()), w.instrPos(cs.call), ok, strings.Join(facts, "; "))
 		}
 	}
-	r.floor(rule, n, 4)
+	// floor over the readers served (typed list, untyped list, typed map, map
+	// field), not over sink sites: two readers may store through one helper
+	r.floor(rule+" (Decoder methods whose stores were examined)", len(readers), 4)
+}
+
+// decoderLayer: the methods of *Decoder, and the unexported package functions
+// every static call site of which lies in a function of the layer (helpers
+// extracted from the methods), mapped to the Decoder methods they serve.
+func (w *World) decoderLayer() map[*ssa.Function]map[*ssa.Function]bool {
+	owners := map[*ssa.Function]map[*ssa.Function]bool{}
+	for _, fn := range w.SrcFuncs() {
+		if recv := fn.Signature.Recv(); recv != nil && namedIs(recv.Type(), hessianPath, "Decoder") {
+			owners[fn] = map[*ssa.Function]bool{fn: true}
+		}
+	}
+	callers := map[*ssa.Function][]*ssa.Function{}
+	for _, caller := range w.SrcFuncs() {
+		for _, cs := range w.callSitesIn(caller) {
+			if sc := cs.call.Call.StaticCallee(); sc != nil && w.inPkg(sc) {
+				callers[sc] = append(callers[sc], caller)
+			}
+		}
+	}
+	for changed := true; changed; {
+		changed = false
+		for _, fn := range w.SrcFuncs() {
+			if fn.Parent() != nil || token.IsExported(fn.Name()) || fn.Signature.Recv() != nil || len(callers[fn]) == 0 {
+				continue
+			}
+			all := true
+			for _, c := range callers[fn] {
+				if c != fn && owners[c] == nil {
+					all = false
+				}
+			}
+			if !all {
+				continue
+			}
+			if owners[fn] == nil {
+				owners[fn] = map[*ssa.Function]bool{}
+			}
+			for _, c := range callers[fn] {
+				for o := range owners[c] {
+					if !owners[fn][o] {
+						owners[fn][o] = true
+						changed = true
+					}
+				}
+			}
+		}
+	}
+	return owners
 }
 
 // ---- C02 ----
